@@ -203,6 +203,11 @@ enum Inject {
     /// the file size limit (as `Fsize`) only takes effect when the k-th output operation is
     /// reached: everything written before fits, what the creator does from there on does not
     FsizeFrom { k: u64, limit: u64, ignore_signal: bool },
+    /// the simulator at the system-call boundary (LD_PRELOAD shim, no hook of the code under test
+    /// involved): the process ends right before its k-th file-system changing system call (open
+    /// for writing, write, copy_file_range, sendfile, ftruncate, rename, link, unlink ...), or in
+    /// the middle of it (a write / copy that transfers half of its bytes)
+    Sys { k: u64, mid: bool },
 }
 
 impl Inject {
@@ -225,6 +230,7 @@ impl Inject {
             Inject::InputErr { call } => format!("inputerr:{call}"),
             Inject::Fsize { limit, ignore_signal } => format!("fsize:{limit}:{}", if *ignore_signal { "efbig" } else { "kill" }),
             Inject::FsizeFrom { k, limit, ignore_signal } => format!("fsizefrom:{k}:{limit}:{}", if *ignore_signal { "efbig" } else { "kill" }),
+            Inject::Sys { k, mid } => format!("sys:{k}:{}", if *mid { "mid" } else { "before" }),
             Inject::ReadOnlyDir => "rodir".into(),
             Inject::ReadOnlyDirIo { k, decision } => {
                 let inner = Inject::Io { k: *k, decision: *decision }.encode();
@@ -243,6 +249,7 @@ impl Inject {
         Some(match p[0] {
             "none" => Inject::None,
             "rodir" => Inject::ReadOnlyDir,
+            "sys" => Inject::Sys { k: p[1].parse().ok()?, mid: p[2] == "mid" },
             "fsizefrom" => Inject::FsizeFrom { k: p[1].parse().ok()?, limit: p[2].parse().ok()?, ignore_signal: p[3] == "efbig" },
             "benign" => Inject::Benign { seed: p[1].parse().ok()? },
             "inputerr" => Inject::InputErr { call: p[1].parse().ok()? },
@@ -272,6 +279,8 @@ impl Inject {
             Inject::Fsize { ignore_signal: true, .. } => "rlimit-fsize-efbig",
             Inject::FsizeFrom { ignore_signal: false, .. } => "rlimit-fsize-from-an-operation-on-kill",
             Inject::FsizeFrom { ignore_signal: true, .. } => "rlimit-fsize-from-an-operation-on-efbig",
+            Inject::Sys { mid: false, .. } => "die-before-system-call",
+            Inject::Sys { mid: true, .. } => "die-in-the-middle-of-a-write-system-call",
             Inject::ReadOnlyDir => "destination-directory-not-writable",
             Inject::ReadOnlyDirIo { .. } => "destination-directory-not-writable+io-fault",
             Inject::Io { decision, .. } => match decision {
@@ -357,6 +366,7 @@ pub fn child_main(args: &Args) -> ! {
             hooks.set_plan(Some(IoPlan::Record));
             opts.sim_cfg.err_at_call = Some(*call);
         }
+        Inject::Sys { .. } => hooks.set_plan(Some(IoPlan::Record)),
         Inject::FsizeFrom { k, limit, ignore_signal } => {
             if *ignore_signal {
                 unsafe {
@@ -441,6 +451,8 @@ fn file_tag(path: &str) -> String {
 // parent side
 
 struct Reference {
+    /// file-system changing system calls of the fault-free run: (name, is a data transfer)
+    sys_calls: Vec<(String, bool)>,
     files: Vec<(String, Vec<u8>)>,
     dump: Dump,
     spec: DumpSpec,
@@ -457,6 +469,14 @@ fn run_child(sc_file: &Path, case_dir: &Path, inject: &Inject, old: bool, watchd
         .arg(inject.encode());
     if old {
         cmd.arg("old");
+    }
+    if let Inject::Sys { k, mid } = inject {
+        cmd.env("LD_PRELOAD", preload_path())
+            .env(if *mid { "VERIF_SYS_DIE_MID" } else { "VERIF_SYS_DIE_BEFORE" }, k.to_string());
+    }
+    if let Ok(log) = std::env::var("VERIF_SYS_LOG_NEXT") {
+        // (reference run: count and list the file-system changing system calls)
+        cmd.env("LD_PRELOAD", preload_path()).env("VERIF_SYS_LOG", log);
     }
     let mut child = cmd
         .stdin(std::process::Stdio::null())
@@ -492,6 +512,16 @@ fn run_child(sc_file: &Path, case_dir: &Path, inject: &Inject, old: bool, watchd
     }
 }
 
+/// The system-call shim, built next to this executable by `cargo build -p verif-preload`.
+fn preload_path() -> PathBuf {
+    let exe = std::env::current_exe().expect("current_exe");
+    let p = exe.parent().unwrap().join("libverif_preload.so");
+    if !p.exists() {
+        simcore::harness_error(&format!("{} is missing (cargo build --release -p verif-preload)", p.display()));
+    }
+    p
+}
+
 fn read_dir_files(dir: &Path) -> Vec<(String, Vec<u8>)> {
     let mut v = vec![];
     if let Ok(rd) = std::fs::read_dir(dir) {
@@ -513,9 +543,26 @@ fn read_dir_files(dir: &Path) -> Vec<(String, Vec<u8>)> {
 fn make_reference(s: &Scenario, sc_file: &Path, dir: &Path, old: bool) -> Reference {
     let _ = std::fs::remove_dir_all(dir);
     std::fs::create_dir_all(dir).unwrap();
+    let sys_log = dir.parent().unwrap().join(format!("syslog-{}", if old { "old" } else { "new" }));
+    let _ = std::fs::remove_file(&sys_log);
+    std::env::set_var("VERIF_SYS_LOG_NEXT", &sys_log);
     let st = run_child(sc_file, dir, &Inject::None, old, 30_000);
+    std::env::remove_var("VERIF_SYS_LOG_NEXT");
     if st != "ok" {
         simcore::harness_error(&format!("C09 reference run of {} ended {st}", s.id));
+    }
+    let sys_calls: Vec<(String, bool)> = std::fs::read_to_string(&sys_log)
+        .unwrap_or_default()
+        .lines()
+        .filter_map(|l| l.split_whitespace().nth(1).map(|w| w.to_string()))
+        .map(|w| {
+            let data = matches!(w.as_str(), "write" | "pwrite" | "writev" | "copy_file_range" | "sendfile");
+            (w, data)
+        })
+        .collect();
+    let _ = std::fs::remove_file(&sys_log);
+    if sys_calls.is_empty() {
+        simcore::harness_error("C09: the system-call shim recorded nothing in the reference run");
     }
     let oplog: Value =
         serde_json::from_str(&std::fs::read_to_string(dir.join("oplog.json")).unwrap()).unwrap();
@@ -562,6 +609,7 @@ fn make_reference(s: &Scenario, sc_file: &Path, dir: &Path, old: bool) -> Refere
         }
     }
     Reference {
+        sys_calls,
         files,
         dump: d,
         spec,
@@ -641,6 +689,18 @@ fn injections(s: &Scenario, r: &Reference, tier: Tier) -> Vec<Inject> {
             out.push(Inject::Fsize { limit: l, ignore_signal: true });
             l += stride;
         }
+    }
+    // system-call level crash points (no hook involved): before every file-system changing call
+    // and in the middle of every data transfer. Quick tier: the scenarios over an older container
+    // and those with an extra pack; thorough: all
+    if tier == Tier::Thorough || s.preexisting || s.extra {
+        for (k, (_, data)) in r.sys_calls.iter().enumerate() {
+            out.push(Inject::Sys { k: k as u64, mid: false });
+            if *data {
+                out.push(Inject::Sys { k: k as u64, mid: true });
+            }
+        }
+        out.push(Inject::Sys { k: r.sys_calls.len() as u64, mid: false });
     }
     // the quota is reached exactly when a file is about to be published (or right after)
     for (k, (kind, file, _)) in r.ops.iter().enumerate() {
@@ -884,6 +944,7 @@ pub fn worker_main(args: &Args, w: usize, n: usize) -> ! {
                 // the directory refused the creator's temporary file if creation did not succeed
                 // armed when the operation was reached (it bites only a creator that still writes)
                 Inject::FsizeFrom { .. } => true,
+                Inject::Sys { .. } => status == "died",
                 Inject::ReadOnlyDir => status != "ok",
                 // fired = the armed operation was reached although the directory is not writable
                 Inject::ReadOnlyDirIo { .. } => fired.is_some(),
